@@ -166,3 +166,30 @@ reg("C11", "explore", "exploration",
     "WebSocket byte reaches the server, the stream starts with a TLS ClientHello for wss and with GET for ws (no context created).",
     "Trusted: OpenSSL's certificate verification; fixture certificates in fixtures/tls (100-year validity). Real OS threads/sockets are used: only accept/reject and bytes seen are compared, never timing.",
     "DESIGN.md section 6 C11")
+
+
+# Alphabet extensions made after independent seeded changes were missed (DESIGN.md 10.4); appended to the descriptions above.
+EXTENSIONS = {
+    "C01": "Also on connections built with enable_multithread=False and / or a socket timeout.",
+    "C02": "Frame streams are also decoded on connections without locks, with a timeout and validation off, after a real connect(), and on a re-used object whose first connection ended mid-frame; every task except the 3-frame streams also runs with trace logging on.",
+    "C03": "Every task also runs with trace logging on.",
+    "C04": "Also after a real connect() and on a re-used object (all 20 variants); every search also runs one level shallower with trace logging on.",
+    "C05": "Sequences and first bytes also with fire_cont_frame / skip_utf8_validation, after a real connect() with all four option combinations, on re-used objects (closed mid-message / mid-frame) and after the application's own send_close(); close bodies under all eight configurations; every task also with trace logging on.",
+    "C06": "Plus all histories of <= 3 (thorough 4) of 13 whole / fragmented, well- / ill-formed messages on ONE connection (a rejected message may not influence later ones); every task also with trace logging on.",
+    "C07": "The incremental search also runs after a real connect(), on a re-used object and after the application's own send_close(); all ping lengths and shallower searches also with trace logging on.",
+    "C08": "Also on a connection built with enable_multithread=False; every task also with trace logging on.",
+    "C09": "Every task also with trace logging on.",
+    "C10": "Every task also with trace logging on.",
+    "C11": "Connection options that are not TLS options (host with and without port, origin, header, cookie / suppress_origin; direct and through a proxy) are further 'must not change what is verified' axes; every task also with trace logging on.",
+    "C12": "Also: senders with a socket timeout on a slow transport (every write blocks 0.6 s of virtual time), WebSocketApp.send / send_text / send_bytes from on_open under short writes (plain and TLS); short-write and synchronisation-point runs also with trace logging on.",
+    "C13": "A segment kind with a text message cut inside multi-byte characters; reconnection after a first connection lost mid-header / mid-frame / mid-message; a third of the histories also with trace logging on.",
+    "C14": "Endings added: a peer that ignores pings but keeps talking, a lost connection followed by a successful reconnect and a server close, close reasons with UTF-8 validation switched off; every ending also with trace logging on.",
+    "C15": "The return-value clause of C14 ('True exactly when an error was reported') is evaluated on every reconnecting run; every outcome sequence also with trace logging on.",
+    "C16": "Also: the keepalive of the second run_forever() after an errored run, a process-wide default socket timeout (30 s / 0.5 s); traffic-free scenarios also with trace logging on.",
+    "C17": "The handshake token grammar and every corruption / truncation of a 200 reply are also fed as an HTTP proxy's answer to CONNECT (option and environment proxy, ws and wss); grammars, corruptions and the legal-frame grammar also with trace logging on.",
+    "C18": "Address lists are answered with IPv4, IPv6 and mixed families; a history part (connection i, connection j, connection i again over 6 option / timeout settings) demands that a connection's socket settings do not depend on earlier connections; every task also with trace logging on.",
+    "C19": "Redirect chains of 2-3 hops changing scheme and / or host (each hop routed by its own scheme and host), credentials longer than one base64 line; every task also with trace logging on.",
+    "C20": "Histories also with one caller-owned header list / dict passed to every handshake; targets with explicit ports; a subset also with trace logging on.",
+}
+for _pid, _extra in EXTENSIONS.items():
+    CHECKS[_pid]["text"] += " " + _extra
